@@ -7,19 +7,20 @@ from hypothesis import strategies as st
 from vp.gen import xml as gx
 
 # weights: compositions the repository's tests never have (reverse axes, following/preceding, siblings) are common
-_AXES = (['child'] * 22 + ['descendant'] * 6 + ['descendant-or-self'] * 4 + ['parent'] * 7 + ['ancestor'] * 6 +
-         ['ancestor-or-self'] * 4 + ['following'] * 9 + ['preceding'] * 9 + ['following-sibling'] * 9 +
-         ['preceding-sibling'] * 9 + ['self'] * 4 + ['attribute'] * 7 + ['namespace'] * 4)
+_AXES = (['child'] * 30 + ['descendant'] * 8 + ['descendant-or-self'] * 4 + ['parent'] * 6 + ['ancestor'] * 5 +
+         ['ancestor-or-self'] * 3 + ['following'] * 7 + ['preceding'] * 7 + ['following-sibling'] * 8 +
+         ['preceding-sibling'] * 8 + ['self'] * 4 + ['attribute'] * 7 + ['namespace'] * 3)
 _axis = st.sampled_from(_AXES)
 
-_elem_name = st.tuples(st.just('name'), st.sampled_from([None, None, None, 'p', 'q']), st.sampled_from(gx.ELEM_LOCALS)).map(list)
+_elem_name = st.tuples(st.just('name'), st.sampled_from([None, None, None, None, 'p', 'q']), st.sampled_from(gx.ELEM_LOCALS)).map(list)
 _attr_name = st.tuples(st.just('name'), st.sampled_from([None, None, 'p', 'q', 'xml']), st.sampled_from(gx.ATTR_LOCALS)).map(list)
 _ns_name = st.tuples(st.just('name'), st.none(), st.sampled_from(['p', 'q', 's', 'xml'])).map(list)
 _pi = st.tuples(st.just('pi'), st.sampled_from([None, 'x', 'y', 'pi', 'xml-stylesheet'])).map(list)
 
-_TEST_ELEM = st.one_of(_elem_name, _elem_name, _elem_name, st.just(['any']), st.just(['any']),
-                       st.sampled_from([['nsany', 'p'], ['nsany', 'q']]), st.just(['node']), st.just(['node']),
-                       st.just(['text']), st.just(['comment']), _pi)
+_any, _node = st.just(['any']), st.just(['node'])
+_TEST_ELEM = st.one_of(_elem_name, _elem_name, _elem_name, _elem_name, _any, _any, _any, _any, _node, _node, _node, _node,
+                       st.sampled_from([['nsany', 'p'], ['nsany', 'q']]), st.just(['text']), st.just(['text']),
+                       st.just(['comment']), _pi)
 _TEST_ATTR = st.one_of(_attr_name, _attr_name, st.just(['any']), st.just(['any']), st.just(['node']),
                        st.sampled_from([['nsany', 'p'], ['nsany', 'xml']]), st.just(['text']))
 _TEST_NS = st.one_of(_ns_name, st.just(['any']), st.just(['any']), st.just(['node']), st.just(['comment']))
@@ -28,21 +29,28 @@ _LITERALS = ('t', '1', 'x y', 'v', ' ', '', 'tt', 'd')
 _OPS = ('=', '!=', '<', '>', '<=', '>=')
 
 
-def _test_for(axis):
+_LOOSE_ELEM = st.one_of(_any, _any, _any, _node, _node, _node, _node,
+                        st.tuples(st.just('name'), st.none(), st.sampled_from(gx.ELEM_LOCALS)).map(list),
+                        st.tuples(st.just('name'), st.none(), st.sampled_from(gx.ELEM_LOCALS)).map(list), st.just(['text']))
+_LOOSE_ATTR = st.one_of(_any, _any, _node, st.tuples(st.just('name'), st.none(), st.sampled_from(gx.ATTR_LOCALS)).map(list))
+_LOOSE_NS = st.one_of(_any, _node)
+
+
+def _test_for(axis, loose=False):
     if axis == 'attribute':
-        return _TEST_ATTR
+        return _LOOSE_ATTR if loose else _TEST_ATTR
     if axis == 'namespace':
-        return _TEST_NS
-    return _TEST_ELEM
+        return _LOOSE_NS if loose else _TEST_NS
+    return _LOOSE_ELEM if loose else _TEST_ELEM
 
 
 @st.composite
-def _step(draw, depth, first=False):
+def _step(draw, depth, loose=False):
     axis = draw(_axis)
-    test = draw(_test_for(axis))
+    test = draw(_test_for(axis, loose))
     preds = []
     k = draw(st.integers(0, 9))
-    npred = 0 if k < 5 else 1 if k < 9 else 2
+    npred = (0 if k < 7 else 1) if loose else (0 if k < 6 else 1 if k < 9 else 2)
     for _ in range(npred):
         preds.append(draw(_pred(depth)))
     sep = '//' if draw(st.integers(0, 4)) == 0 else '/'
@@ -51,7 +59,7 @@ def _step(draw, depth, first=False):
 
 @st.composite
 def _rel_path(draw, depth, max_steps):
-    n = draw(st.integers(1, max_steps))
+    n = draw(st.sampled_from([1, 1, 2][:max_steps + 1]))
     return ['path', 0, [draw(_step(depth)) for _ in range(n)]]
 
 
@@ -59,7 +67,7 @@ def _rel_path(draw, depth, max_steps):
 def _pred(draw, depth):
     k = draw(st.integers(0, 19))
     if k < 5:
-        return ['num', draw(st.integers(1, 3))]
+        return ['num', draw(st.sampled_from([1, 1, 1, 2, 2, 3]))]
     if k < 8:
         return ['pos', draw(st.sampled_from(_OPS)), draw(st.integers(1, 3))]
     if k < 10:
@@ -82,10 +90,9 @@ def _pred(draw, depth):
 @st.composite
 def _path(draw, max_steps, depth=0):
     ab = draw(st.sampled_from([0, 0, 0, 1, 2, 2]))
-    n = draw(st.integers(0 if ab == 1 and depth == 0 else 1, max_steps))
-    if ab == 1 and n == 0 and draw(st.integers(0, 3)):
-        n = 1
-    return ['path', ab, [draw(_step(depth)) for _ in range(n)]]
+    n = draw(st.sampled_from([1, 1, 2, 2, 2, 3, 3, 4, 4, 5][:2 * max_steps])) if not (ab == 1 and depth == 0 and draw(st.integers(0, 7)) == 0) else 0
+    loose = draw(st.integers(0, 9)) < 6
+    return ['path', ab, [draw(_step(depth, loose)) for _ in range(n)]]
 
 
 @st.composite
